@@ -140,6 +140,27 @@ CHECKS["C11"] = dict(
     note="partial: containers with joint_allocator are covered by the model's allocate/deallocate histories, not instantiated in the harness; "
          "clone independence rests on upstream blocks being disjoint.",
     technique="Lean 4 proof (invariant over histories, reuse of the bump-stack lemmas) + layout correspondence")
+CHECKS["C09"] = dict(
+    text="Lean theorems by structural induction over composition expressions of ANY depth (leaf with/without array members, aligned, "
+         "tracked, fallback, segregator, direct/reference/type-erased storage) for every request shape and every pattern of served/declined "
+         "leaf calls, through the throwing and the composable interface: every call a leaf sees asks for at least the requested bytes at an "
+         "alignment no smaller than requested; a served allocation is served by exactly one leaf call; releasing with the same user-level "
+         "parameters reaches exactly the leaf that served it, with the kind/count/size/alignment it was served with, exactly once; a tracker "
+         "sees each successful operation once and no failed one; std_allocator's and memory_resource_adapter's node/array decisions are "
+         "functions of the user parameters (the adapter's under constant max_node_size: _partial, D24). Tied by line-by-line correspondence "
+         "of leaf-call and tracker logs on 14 real compositions + front ends.",
+    note="count*size overflow (D21) excluded by hypothesis; D24 is a recorded finding; D6, D7, D8 repaired.",
+    technique="Lean 4 proof (structural induction over composition expressions) + leaf-log correspondence")
+CHECKS["C08"] = dict(
+    text="Lean theorems: the arena's ownership test answers true for every address inside the usable part of a held block and false for every "
+         "address in none of its blocks - including a sibling's block that starts exactly one past the end of an own block or ends directly "
+         "before one (half-open comparison, no adjacency hypothesis); try_deallocate of pools and collections on foreign memory returns false "
+         "with the state unchanged and on own memory is exactly deallocate + true; a fallback_allocator of any nesting depth sends every "
+         "release to the sub-allocator that served the allocation with the same call shape (corollary of the C09 routing theorem). Tied by "
+         "correspondence of pool/collection traces with foreign pointers in adjacent sibling blocks and of fallback compositions.",
+    note="partial: memory_stack/iteration_allocator composable traits at theorem level only (arena ownership); 'handed out' is approximated by "
+         "'inside a held block' - the library cannot distinguish a live node from a free node of its own block (not claimed by the property).",
+    technique="Lean 4 proof (ownership lemmas + routing induction) + correspondence")
 NOT_YET = {}
 
 def main():
